@@ -1,1 +1,547 @@
-//! (to be filled)
+//! Iter family: EnumIter / EnumCount / VariantNames / VariantArray. Checkers for C04 C05 C08.
+
+use crate::*;
+use proptest::prelude::*;
+use serde_json::json;
+use std::ops::Range;
+use vmodel::model;
+use vmodel::spec::Kind;
+
+pub trait IGlue: Glue {
+    type It: Iterator<Item = Self> + Clone + DoubleEndedIterator + ExactSizeIterator + std::iter::FusedIterator;
+    fn iter() -> Self::It;
+    fn count() -> Option<usize> {
+        None
+    }
+    fn variant_names() -> Option<&'static [&'static str]> {
+        None
+    }
+    /// idx() of every element of VariantArray::VARIANTS
+    fn variant_array() -> Option<Vec<usize>> {
+        None
+    }
+}
+
+#[derive(Clone, Debug, PartialEq, Eq, Hash, serde::Serialize, serde::Deserialize)]
+pub enum Op {
+    Next,
+    NextBack,
+    Nth(usize),
+    NthBack(usize),
+    Clone,
+    Switch(usize),
+}
+
+impl Op {
+    pub fn show(&self) -> String {
+        match self {
+            Op::Next => "next".into(),
+            Op::NextBack => "next_back".into(),
+            Op::Nth(k) => format!("nth({})", k),
+            Op::NthBack(k) => format!("nth_back({})", k),
+            Op::Clone => "clone".into(),
+            Op::Switch(j) => format!("switch({})", j),
+        }
+    }
+    pub fn parse(s: &str) -> Op {
+        let num = |s: &str| s[s.find('(').unwrap() + 1..s.len() - 1].parse::<usize>().unwrap();
+        if s == "next" {
+            Op::Next
+        } else if s == "next_back" {
+            Op::NextBack
+        } else if s == "clone" {
+            Op::Clone
+        } else if s.starts_with("nth_back(") {
+            Op::NthBack(num(s))
+        } else if s.starts_with("nth(") {
+            Op::Nth(num(s))
+        } else if s.starts_with("switch(") {
+            Op::Switch(num(s))
+        } else {
+            panic!("bad op {}", s)
+        }
+    }
+}
+
+pub struct IterModel {
+    /// declaration indices of the enabled variants
+    pub enabled: Vec<usize>,
+    pub fields: Vec<Vec<String>>,
+}
+
+impl IterModel {
+    pub fn new(e: &EnumSpec) -> Self {
+        let enabled = e.enabled_indices();
+        let fields = enabled.iter().map(|&i| model::default_fields(&e.variants[i])).collect();
+        IterModel { enabled, fields }
+    }
+    fn item_ok<E: Glue>(&self, got: &Option<E>, want: Option<usize>) -> Result<(), (String, String)> {
+        match (got, want) {
+            (None, None) => Ok(()),
+            (Some(v), Some(p)) => {
+                if v.idx() != self.enabled[p] {
+                    return Err((format!("Some(variant #{})", self.enabled[p]), format!("Some(variant #{})", v.idx())));
+                }
+                let f = v.fields();
+                if f != self.fields[p] {
+                    return Err((format!("payload {:?}", self.fields[p]), format!("payload {:?}", f)));
+                }
+                Ok(())
+            }
+            (Some(v), None) => Err(("None".into(), format!("Some(variant #{})", v.idx()))),
+            (None, Some(p)) => Err((format!("Some(variant #{})", self.enabled[p]), "None".into())),
+        }
+    }
+}
+
+#[derive(Clone)]
+struct St<I: Clone> {
+    its: Vec<(I, Range<usize>)>,
+    active: usize,
+}
+
+/// apply one op to implementation and model; Err((kind, expected, actual))
+fn step<E: IGlue>(m: &IterModel, st: &mut St<E::It>, op: &Op) -> Result<(), (String, String, String)> {
+    let a = st.active;
+    match op {
+        Op::Clone => {
+            let c = st.its[a].clone();
+            st.its.push(c);
+        }
+        Op::Switch(j) => {
+            st.active = j % st.its.len();
+        }
+        _ => {
+            let (it, md) = &mut st.its[a];
+            let (got, want) = match op {
+                Op::Next => (catch(|| it.next()), md.next()),
+                Op::NextBack => (catch(|| it.next_back()), md.next_back()),
+                Op::Nth(k) => (catch(|| it.nth(*k)), md.nth(*k)),
+                Op::NthBack(k) => (catch(|| it.nth_back(*k)), md.nth_back(*k)),
+                _ => unreachable!(),
+            };
+            let got = match got {
+                Ok(g) => g,
+                Err(p) => return Err(("panic".into(), format!("{:?} (model)", want), format!("panicked: {}", p))),
+            };
+            if let Err((e, g)) = m.item_ok::<E>(&got, want) {
+                return Err(("wrong-item".into(), e, g));
+            }
+        }
+    }
+    // len / size_hint exact after every call, on every live copy
+    for (it, md) in st.its.iter() {
+        let l = match catch(|| (it.len(), it.size_hint())) {
+            Ok(x) => x,
+            Err(p) => return Err(("panic-in-len".into(), format!("len {}", md.len()), p)),
+        };
+        if l.0 != md.len() || l.1 != (md.len(), Some(md.len())) {
+            return Err(("len-size_hint".into(), format!("len {} size_hint {:?}", md.len(), (md.len(), Some(md.len()))), format!("len {} size_hint {:?}", l.0, l.1)));
+        }
+    }
+    Ok(())
+}
+
+/// after a history: drain every copy from the front (alternating ends for odd copies) and check
+/// fusedness
+fn finish<E: IGlue>(m: &IterModel, st: &mut St<E::It>) -> Result<(), (String, String, String)> {
+    for (n, (it, md)) in st.its.iter_mut().enumerate() {
+        let mut guard = 0;
+        loop {
+            guard += 1;
+            if guard > 64 {
+                return Err(("does-not-terminate".into(), "exhaustion".into(), "more than 64 items".into()));
+            }
+            let back = n % 2 == 1 && guard % 2 == 0;
+            let (got, want) = if back { (catch(|| it.next_back()), md.next_back()) } else { (catch(|| it.next()), md.next()) };
+            let got = match got {
+                Ok(g) => g,
+                Err(p) => return Err(("panic".into(), format!("{:?}", want), p)),
+            };
+            if let Err((e, g)) = m.item_ok::<E>(&got, want) {
+                return Err(("wrong-item-in-drain".into(), e, g));
+            }
+            if want.is_none() {
+                break;
+            }
+        }
+        for _ in 0..3 {
+            let r = catch(|| (it.next().map(|v| v.idx()), it.next_back().map(|v| v.idx()), it.len()));
+            match r {
+                Ok((None, None, 0)) => {}
+                Ok(x) => return Err(("not-fused".into(), "(None, None, 0)".into(), format!("{:?}", x))),
+                Err(p) => return Err(("panic".into(), "None".into(), p)),
+            }
+        }
+    }
+    Ok(())
+}
+
+fn run_history<E: IGlue>(m: &IterModel, h: &[Op]) -> Result<(), (String, String, String)> {
+    let n = m.enabled.len();
+    let mut st: St<E::It> = St { its: vec![(E::iter(), 0..n)], active: 0 };
+    for op in h {
+        step::<E>(m, &mut st, op)?;
+    }
+    finish::<E>(m, &mut st)
+}
+
+fn alphabet(n: usize, huge: bool) -> Vec<Op> {
+    let mut a = vec![Op::Next, Op::NextBack];
+    let mut ks: Vec<usize> = (0..=n + 1).collect();
+    if huge {
+        ks.push(usize::MAX - 1);
+        ks.push(usize::MAX);
+    }
+    for k in &ks {
+        a.push(Op::Nth(*k));
+    }
+    for k in &ks {
+        a.push(Op::NthBack(*k));
+    }
+    a.push(Op::Clone);
+    a.push(Op::Switch(1));
+    a
+}
+
+fn nontrivial_history(h: &[Op]) -> bool {
+    let front = h.iter().any(|o| matches!(o, Op::Next | Op::Nth(_)));
+    let back = h.iter().any(|o| matches!(o, Op::NextBack | Op::NthBack(_)));
+    let nth = h.iter().any(|o| matches!(o, Op::Nth(k) | Op::NthBack(k) if *k >= 1));
+    let copy = h.iter().any(|o| matches!(o, Op::Clone));
+    (front && back) || nth || copy
+}
+
+fn hist_json(h: &[Op]) -> serde_json::Value {
+    json!(h.iter().map(|o| o.show()).collect::<Vec<_>>())
+}
+
+/// exhaustive DFS over all histories up to `depth`
+fn dfs<E: IGlue>(ctx: &mut Ctx, m: &IterModel, alpha: &[Op], st: &St<E::It>, h: &mut Vec<Op>, depth: usize, count: &mut u64) -> bool {
+    for op in alpha {
+        let mut s2 = st.clone();
+        h.push(op.clone());
+        *count += 1;
+        let r = step::<E>(m, &mut s2, op).and_then(|_| {
+            let mut s3 = s2.clone();
+            finish::<E>(m, &mut s3)
+        });
+        if nontrivial_history(h) {
+            ctx.nontrivial(format!("{:?}", h).as_bytes());
+        }
+        if let Err((k, e, a)) = r {
+            ctx.fail(&format!("iter:{}", k), json!({"history": hist_json(h), "n_enabled": m.enabled.len()}), e, a);
+            h.pop();
+            return false;
+        }
+        if h.len() < depth {
+            if !dfs::<E>(ctx, m, alpha, &s2, h, depth, count) {
+                h.pop();
+                return false;
+            }
+        }
+        h.pop();
+    }
+    true
+}
+
+#[derive(Clone, Debug)]
+enum Adapter {
+    Skip(usize),
+    StepBy(usize),
+    Rev,
+    Take(usize),
+}
+
+fn apply_model(a: &[Adapter], n: usize) -> Vec<usize> {
+    let mut v: Vec<usize> = (0..n).collect();
+    for ad in a {
+        v = match ad {
+            Adapter::Skip(k) => v.into_iter().skip(*k).collect(),
+            Adapter::StepBy(k) => v.into_iter().step_by(*k).collect(),
+            Adapter::Rev => v.into_iter().rev().collect(),
+            Adapter::Take(k) => v.into_iter().take(*k).collect(),
+        };
+    }
+    v
+}
+
+fn apply_impl<E: IGlue>(a: &[Adapter]) -> Vec<usize> {
+    // the adapters run on the derived iterator itself (skip/step_by call nth, rev calls next_back,
+    // rev after skip/step_by needs len()); items are mapped to positions only at the end
+    fn collect<E: Glue, I: Iterator<Item = E>>(i: I) -> Vec<usize> {
+        i.take(40).map(|v| v.idx()).collect()
+    }
+    let it = E::iter();
+    match a {
+        [] => collect(it),
+        [Adapter::Skip(k)] => collect(it.skip(*k)),
+        [Adapter::StepBy(k)] => collect(it.step_by(*k)),
+        [Adapter::Rev] => collect(it.rev()),
+        [Adapter::Take(k)] => collect(it.take(*k)),
+        [Adapter::Skip(k), Adapter::Skip(j)] => collect(it.skip(*k).skip(*j)),
+        [Adapter::Skip(k), Adapter::StepBy(j)] => collect(it.skip(*k).step_by(*j)),
+        [Adapter::Skip(k), Adapter::Rev] => collect(it.skip(*k).rev()),
+        [Adapter::Skip(k), Adapter::Take(j)] => collect(it.skip(*k).take(*j)),
+        [Adapter::StepBy(k), Adapter::Skip(j)] => collect(it.step_by(*k).skip(*j)),
+        [Adapter::StepBy(k), Adapter::StepBy(j)] => collect(it.step_by(*k).step_by(*j)),
+        [Adapter::StepBy(k), Adapter::Rev] => collect(it.step_by(*k).rev()),
+        [Adapter::StepBy(k), Adapter::Take(j)] => collect(it.step_by(*k).take(*j)),
+        [Adapter::Rev, Adapter::Skip(j)] => collect(it.rev().skip(*j)),
+        [Adapter::Rev, Adapter::StepBy(j)] => collect(it.rev().step_by(*j)),
+        [Adapter::Rev, Adapter::Rev] => collect(it.rev().rev()),
+        [Adapter::Rev, Adapter::Take(j)] => collect(it.rev().take(*j)),
+        [Adapter::Take(k), Adapter::Skip(j)] => collect(it.take(*k).skip(*j)),
+        [Adapter::Take(k), Adapter::StepBy(j)] => collect(it.take(*k).step_by(*j)),
+        [Adapter::Take(k), Adapter::Rev] => collect(it.take(*k).rev()),
+        [Adapter::Take(k), Adapter::Take(j)] => collect(it.take(*k).take(*j)),
+        _ => unreachable!(),
+    }
+}
+
+fn check_adapters<E: IGlue>(ctx: &mut Ctx, m: &IterModel) {
+    let n = m.enabled.len();
+    let mut ks: Vec<usize> = (0..=n + 1).collect();
+    ks.push(usize::MAX - 1);
+    ks.push(usize::MAX);
+    let mut ads: Vec<Adapter> = vec![Adapter::Rev];
+    for k in &ks {
+        ads.push(Adapter::Skip(*k));
+        ads.push(Adapter::Take(*k));
+        if *k >= 1 {
+            ads.push(Adapter::StepBy(*k));
+        }
+    }
+    let mut chains: Vec<Vec<Adapter>> = ads.iter().map(|a| vec![a.clone()]).collect();
+    for a in &ads {
+        for b in &ads {
+            // std's own StepBy::nth needs ~2^64 steps when both the step and the argument are huge
+            // (overflow loop in core::iter::adapters::step_by); that is not the derived iterator's
+            // business, so a huge step_by is only followed by rev / take
+            let huge_step = matches!(a, Adapter::StepBy(k) if *k > n + 1);
+            if huge_step && !matches!(b, Adapter::Rev | Adapter::Take(_)) {
+                continue;
+            }
+            chains.push(vec![a.clone(), b.clone()]);
+        }
+    }
+    let mut cnt = 0;
+    for c in chains {
+        cnt += 1;
+        ctx.eval();
+        let want: Vec<usize> = apply_model(&c, n).into_iter().map(|p| m.enabled[p]).collect();
+        let got = catch(|| apply_impl::<E>(&c));
+        ctx.nontrivial(format!("adapters{:?}", c).as_bytes());
+        match got {
+            Ok(g) if g == want => {}
+            Ok(g) => ctx.fail("iter:adapter-wrong-items", json!({"adapters": format!("{:?}", c), "n_enabled": n}), format!("{:?}", want), format!("{:?}", g)),
+            Err(p) => ctx.fail("iter:adapter-panic", json!({"adapters": format!("{:?}", c), "n_enabled": n}), format!("{:?}", want), format!("panicked: {}", p)),
+        }
+        if ctx.failed() {
+            break;
+        }
+    }
+    ctx.exhaustive("adapter chains (skip/step_by/take/rev, depth <= 2, k in 0..N+1 and usize::MAX-1, usize::MAX)", cnt);
+}
+
+pub fn c05<E: IGlue>(ctx: &mut Ctx) {
+    let spec = ctx.spec;
+    let m = IterModel::new(spec);
+    let n = m.enabled.len();
+    if let Some(r) = ctx.replay() {
+        if let Some(hs) = r["history"].as_array() {
+            let h: Vec<Op> = hs.iter().map(|s| Op::parse(s.as_str().unwrap())).collect();
+            ctx.eval();
+            if let Err((k, e, a)) = run_history::<E>(&m, &h) {
+                ctx.fail(&format!("iter:{}", k), json!({"history": hist_json(&h), "n_enabled": n}), e, a);
+            }
+        } else {
+            check_adapters::<E>(ctx, &m);
+        }
+        return;
+    }
+    let depth = ctx.param("depth", 3) as usize;
+    // phase 1: exhaustive without the two huge arguments, phase 2: with them
+    for (huge, d) in [(false, depth), (true, depth)] {
+        let alpha = alphabet(n, huge);
+        let st: St<E::It> = St { its: vec![(E::iter(), 0..n)], active: 0 };
+        let mut h = Vec::new();
+        let mut count = 0u64;
+        let ok = dfs::<E>(ctx, &m, &alpha, &st, &mut h, d, &mut count);
+        ctx.evals(count);
+        ctx.exhaustive(&format!("all call histories up to depth {} ({} huge arguments)", d, if huge { "with" } else { "without" }), count);
+        if !ok {
+            return;
+        }
+    }
+    ctx.sample(json!({"enum": spec.name, "n_enabled": n, "history": ["nth(1)", "clone", "next_back", "switch(1)", "nth(18446744073709551615)"]}));
+    check_adapters::<E>(ctx, &m);
+    if ctx.failed() {
+        return;
+    }
+    // long random histories (shrinkable)
+    let alpha = alphabet(n, true);
+    let alen = alpha.len();
+    let strat = proptest::collection::vec((0..alen, 0..8usize), 0..64)
+        .prop_map(move |v| {
+            v.into_iter()
+                .map(|(i, j)| match &alpha[i] {
+                    Op::Switch(_) => Op::Switch(j),
+                    o => o.clone(),
+                })
+                .collect::<Vec<Op>>()
+        })
+        .boxed();
+    let cases = ctx.param("cases", 2000) as u32;
+    let seed = ctx.seed;
+    let mut first: Option<Vec<Op>> = None;
+    let shrunk = {
+        let mut f = |h: &Vec<Op>, counting: bool| -> Option<String> {
+            if counting {
+                ctx.eval();
+                if nontrivial_history(h) {
+                    ctx.nontrivial(format!("{:?}", h).as_bytes());
+                }
+                if first.is_none() && h.len() > 6 {
+                    first = Some(h.clone());
+                }
+            }
+            run_history::<E>(&m, h).err().map(|x| x.0)
+        };
+        prop_run(seed, cases, &strat, &mut f)
+    };
+    if let Some(h) = first {
+        ctx.sample(json!({"enum": spec.name, "n_enabled": n, "history": hist_json(&h)}));
+    }
+    if let Some(h) = shrunk {
+        if let Err((k, e, a)) = run_history::<E>(&m, &h) {
+            ctx.fail(&format!("iter:{}", k), json!({"history": hist_json(&h), "n_enabled": n, "shrunk": true}), e, a);
+        }
+    }
+}
+
+/// C04: iteration content and order
+pub fn c04<E: IGlue>(ctx: &mut Ctx) {
+    let spec = ctx.spec;
+    let m = IterModel::new(spec);
+    let n = m.enabled.len();
+    let describe = |v: &Vec<E>| -> Vec<(usize, Vec<String>)> { v.iter().map(|x| (x.idx(), x.fields())).collect() };
+    let want: Vec<(usize, Vec<String>)> = (0..n).map(|p| (m.enabled[p], m.fields[p].clone())).collect();
+    let fwd: Result<Vec<E>, String> = catch(|| E::iter().take(200).collect());
+    ctx.eval();
+    let nontrivial = spec.variants.iter().any(|v| v.kind != Kind::Unit) || {
+        let last_en = m.enabled.last().copied().unwrap_or(0);
+        spec.variants.iter().enumerate().any(|(i, v)| v.disabled() && i < last_en)
+    };
+    if nontrivial {
+        ctx.nontrivial(&spec.hash64().to_le_bytes());
+    }
+    let mask: String = spec.variants.iter().map(|v| if v.disabled() { 'd' } else { 'E' }).collect();
+    ctx.class(&format!("n_variants={}", spec.variants.len().min(9)));
+    match fwd {
+        Ok(v) => {
+            let got = describe(&v);
+            if got != want {
+                ctx.fail("iter-forward-content", json!({"mask": mask}), format!("{:?}", want), format!("{:?}", got));
+            }
+        }
+        Err(p) => ctx.fail("iter-forward-panic", json!({"mask": mask}), format!("{:?}", want), p),
+    }
+    ctx.eval();
+    match catch(|| E::iter().rev().take(200).collect::<Vec<E>>()) {
+        Ok(v) => {
+            let got = describe(&v);
+            let mut w = want.clone();
+            w.reverse();
+            if got != w {
+                ctx.fail("iter-reverse-content", json!({"mask": mask}), format!("{:?}", w), format!("{:?}", got));
+            }
+        }
+        Err(p) => ctx.fail("iter-reverse-panic", json!({"mask": mask}), "reverse list".into(), p),
+    }
+    ctx.eval();
+    let cnt = E::iter().count();
+    let len = E::iter().len();
+    let c = E::count();
+    if cnt != n || len != n || c != Some(n) {
+        ctx.fail("iter-count", json!({"mask": mask}), format!("count = len = COUNT = {}", n), format!("count {} len {} COUNT {:?}", cnt, len, c));
+    }
+    // meeting in the middle from both ends never duplicates
+    ctx.eval();
+    let mut it = E::iter();
+    let mut seen = Vec::new();
+    for k in 0..(n + 2) {
+        let x = if k % 2 == 0 { it.next() } else { it.next_back() };
+        if let Some(x) = x {
+            seen.push(x.idx());
+        }
+    }
+    let mut sorted = seen.clone();
+    sorted.sort();
+    let mut en = m.enabled.clone();
+    en.sort();
+    if sorted != en {
+        ctx.fail("iter-both-ends-partition", json!({"mask": mask}), format!("{:?}", en), format!("{:?}", seen));
+    }
+    ctx.sample(json!({"enum": spec.name, "disabled_mask": mask, "kinds": spec.variants.iter().map(|v| format!("{:?}", v.kind)).collect::<Vec<_>>()}));
+}
+
+/// C08: COUNT / VariantNames / VariantArray / EnumIter agree
+pub fn c08<E: IGlue>(ctx: &mut Ctx) {
+    let spec = ctx.spec;
+    let m = IterModel::new(spec);
+    let n_en = m.enabled.len();
+    let n_decl = spec.variants.len();
+    let mask: String = spec.variants.iter().map(|v| if v.disabled() { 'd' } else { 'E' }).collect();
+    let input = json!({"mask": mask, "n": n_decl});
+    ctx.eval();
+    let cnt = E::iter().count();
+    if E::count() != Some(n_en) || cnt != n_en {
+        ctx.fail("count-vs-enabled", input.clone(), format!("COUNT = iter().count() = {}", n_en), format!("COUNT {:?} iter().count() {}", E::count(), cnt));
+    }
+    if let Some(names) = E::variant_names() {
+        ctx.eval();
+        let want: Vec<String> = spec.variants.iter().map(|v| model::canonical(spec, v)).collect();
+        let got: Vec<String> = names.iter().map(|s| s.to_string()).collect();
+        if got != want {
+            ctx.fail("variant-names", input.clone(), format!("{:?}", want), format!("{:?}", got));
+        }
+    } else if spec.derives("VariantNames") {
+        panic!("glue: VariantNames not exposed");
+    }
+    if let Some(arr) = E::variant_array() {
+        ctx.eval();
+        let want: Vec<usize> = (0..n_decl).collect();
+        if arr != want {
+            ctx.fail("variant-array", input.clone(), format!("{:?}", want), format!("{:?}", arr));
+        }
+        if n_en == n_decl {
+            // no disabled variant: position i refers to the same variant everywhere
+            for i in 0..n_decl {
+                ctx.eval();
+                let it = E::iter().nth(i).map(|v| v.idx());
+                if it != Some(arr[i]) {
+                    ctx.fail("array-vs-iter", json!({"mask": mask, "i": i}), format!("Some({})", arr[i]), format!("{:?}", it));
+                }
+            }
+        }
+    } else if spec.derives("VariantArray") {
+        panic!("glue: VariantArray not exposed");
+    }
+    if n_en == n_decl {
+        for i in 0..n_decl {
+            ctx.eval();
+            let it = E::iter().nth(i).map(|v| v.idx());
+            if it != Some(i) {
+                ctx.fail("iter-position", json!({"mask": mask, "i": i}), format!("Some({})", i), format!("{:?}", it));
+            }
+        }
+    }
+    let nontrivial = n_decl >= 3
+        && (spec.variants.iter().any(|v| v.disabled()) || spec.variants.iter().any(|v| v.has_explicit_name() || v.disc.is_some()) || spec.serialize_all().is_some() || spec.prefix().is_some());
+    if nontrivial {
+        ctx.nontrivial(&spec.hash64().to_le_bytes());
+    }
+    ctx.class(&format!("derives={}", spec.derives.join("+")));
+    ctx.sample(json!({"enum": spec.name, "mask": mask, "derives": spec.derives, "names": E::variant_names().map(|n| n.to_vec())}));
+}
